@@ -110,7 +110,11 @@ func NewModesCase(g *Gen, id int) (*Case, *Case, string) {
 	}
 	a, b := render(&cv.Obs), render(&cp.Obs)
 	diff := ""
-	if a != b {
+	// PostTransforms are gated on the execution-wide error state, so with issues around their effect
+	// depends on the field visit order of each run (the recorded C09 finding), not on the mode: the
+	// direct comparison is made when the schema has no PostTransform or neither run reported an issue;
+	// either way both runs are compared with the model under their own visit orders
+	if a != b && (!hasPT(n) || (cv.Obs.Nil && cp.Obs.Nil)) {
 		diff = "Validate in place:\n" + a + "\nParse of the same value as a map:\n" + b
 	}
 	return cv, cp, diff
